@@ -161,7 +161,7 @@ impl UnspentCsvDump {
                 &&& final(self).writer.log@ == old(self).writer.log@.push(row5(unspent_fmt(), "txid", "indexOut", "height", "value", "address")) + unspent_rows(es, es.len() as int)
             },
             final(self).unspents.view() == old(self).unspents.view(),
-//@before `for (key, value) in self.unspents.iter()`
+//@before `for (key, value`
         let ghost log1 = self.writer.log@;
 //@loop 1
             invariant
@@ -206,7 +206,7 @@ impl Balances {
                 &&& final(self).writer.log@ == old(self).writer.log@.push(row2(bal_fmt(), "address", "balance")) + bal_rows(bes, bes.len() as int)
             },
             final(self).unspents.view() == old(self).unspents.view(), final(self).end_height == block_height,
-//@before `let mut balances: HashMap<&str, u64> = HashMap::new();`
+//@before `let mut balances`
         let ghost log1 = self.writer.log@;
 //@loop 1
             invariant
@@ -231,7 +231,7 @@ impl Balances {
                 bal_entries_ok(es__balances@, balances.view()),
                 self.unspents.view() == old(self).unspents.view(), self.end_height == block_height,
                 self.writer.log@ == log1 + bal_rows(es__balances@, i__balances as int),
-//@before `for (address, balance) in balances.iter()`
+//@before `for (address`
         assert(log1 + bal_rows(Seq::<BEntry>::empty(), 0) =~= log1);
 //@before `fs::rename(`
         assert(self.writer.log@ =~= old(self).writer.log@.push(row2(bal_fmt(), "address", "balance")) + bal_rows(es__balances@, es__balances@.len() as int));
